@@ -1,7 +1,39 @@
 /-
-  Sipsp.Proofs.FLineSound — SOUNDNESS of ParseFLine: whenever the verdict is OK on a new object, the consumed
-  text is a line of the request / reply grammar and the reported fields are exactly its components.
-  (Converse of Sipsp.Proofs.FLineSpec.)
+  Sipsp.Proofs.FLineSound — SOUNDNESS of ParseFLine (property C08, the "rejected rather than mis-split" clause):
+  the converse of Sipsp.Proofs.FLineSpec, for EVERY buffer of at most 65,535 bytes, every offset, a new object.
+
+  Grammar (predicates, all positions explicit):
+    * `FsReqLine b o m u v e`     : `b[o,m) SP b[m+1,u) SP b[u+1,v) EOL`, three non-empty runs of bytes other than
+                                    SP / HT / CR / LF, the line end at `v`, the next line at `e`, the first eight bytes
+                                    not `SIP/2.0 SP` in any letter case (`fs_ver_iff`), 14 bytes available;
+    * `FsStatusLine b o v e d0 d1 d2` : `SIP/2.0` (any letter case) `SP d0 d1 d2 SP b[o+12,v) EOL`, three digits, a
+                                    reason without CR / LF (possibly empty);
+    * `fsReqObj`, `fsRplObj`      : the objects reported for them.
+  Proved:
+    * `parseFLine_sound`          : `parseFLine b o {} = (e, OK, st)` → the text at `o` is a request line and
+                                    `st = fsReqObj …` (method / uri / version spans, `methodNo = getMethodNo (method
+                                    text)`), or a status line and `st = fsRplObj …` (status = value of the digits);
+    * `fline_ok_iff`, `fline_ok_iff_at`, `fline_reject` : OK iff the text at `o` is a line of one of the two grammars;
+    * `fs_short`                  : fewer than 14 bytes available: `(o, MoreBytes, {})`, never OK;
+    * `fline_never_missplit`      : after OK the reported spans tile the line: each next span starts one byte (an SP)
+                                    after the previous one, no SP / HT / CR / LF inside (reason: no CR / LF), the line
+                                    end directly after the last span, the fields of the other shape untouched;
+    * `fs_req_unique`, `fs_status_unique`, `fs_req_not_status`, `fs_req_positions` : there is one way to read a line;
+    * `fline_request_iff`, `fline_reply_of_status`, `fs_status_value` : `Request()` (status = 0) vs reply; the status
+                                    is 100·d0 + 10·d1 + d2 ≤ 999 and is 0 only for `000`;
+    * `fs_req_texts`, `fs_rpl_texts` : the reported fields read back (`Get`) exactly the tokens / digits / reason;
+    * `fs_skipCRLF_ok_shape`      : the accepted line ends (CR LF; CR + other byte; LF + any byte);
+    * `fs_verdicts`, `fs_more_at_end`, `fline_classify` : the only verdicts are OK / MoreBytes / BadChar (never NoCR);
+                                    MoreBytes only when the buffer is exhausted; BadChar iff a decided non-line;
+    * `fs_reject_after_version`   : SP / HT after the version (e.g. a fourth token): BadChar at that byte;
+    * `parseFLine_sound_resumed`, `fs_resumed_eq`, `fs_resumed_oneshot` : the same for objects resumed after any number
+                                    of MoreBytes rounds (`FsResumed`), by the L2 theorem `parseFLine_resume`.
+  Behaviour of the model worth knowing (tests at the end of the file; the Go source does the same):
+    * `SIP/2.0 000 x` is accepted as a reply with status 0, so `Request()` is true for it (`fline_request_iff`);
+    * tokens are runs of ANY bytes other than SP / HT / CR / LF (NUL, control and 8-bit bytes included) and the version
+      of a request is not compared with `SIP/2.0` — this is the grammar as stated, nothing more is checked.
+  Not proved here: nothing of the task is left open; objects in an arbitrary (not reached by resuming) state are
+  outside the statements.
 -/
 import Sipsp.Proofs.FLineSpec
 import Sipsp.Proofs.EqFold
@@ -62,5 +94,1036 @@ theorem fs_skipCRLF_ok {b : Buf} {i e crl : Nat} (h : skipCRLF b i = (e, crl, Er
         by_cases h10 : (c0 == 10) = true
         · right; simpa using h10
         · rw [if_neg h10] at h; cases h
+
+/-! ### the request branch, read backwards -/
+
+theorem fs_flCRLF_ok (b : Buf) (i : Nat) (pl : PFLine) {e : Nat} {st : PFLine}
+    (h : flCRLF b i pl = (e, Err.ok, st)) : ∃ crl, skipCRLF b i = (e, crl, Err.ok) := by
+  unfold flCRLF at h
+  rcases hs : skipCRLF b i with ⟨n, crl, er⟩
+  rw [hs] at h
+  cases er <;> simp only at h <;> cases h
+  exact ⟨crl, rfl⟩
+
+theorem fs_flReqVer_ok (b : Buf) (i : Nat) (pl : PFLine) (hfit : b.size ≤ 65535)
+    (hv : pl.version = PField.set i i) {e : Nat} {st : PFLine} (h : flReqVer b i pl = (e, Err.ok, st)) :
+    i < skipToken b i ∧ (∃ c, b[skipToken b i]? = some c ∧ (c = 13 ∨ c = 10)) ∧
+      ∃ crl, skipCRLF b (skipToken b i) = (e, crl, Err.ok) := by
+  have hge := fs_skipToken_ge b i
+  unfold flReqVer at h
+  simp only at h
+  cases hj : b[skipToken b i]? with
+  | none => rw [hj] at h; simp only at h; cases h
+  | some c =>
+    rw [hj] at h; simp only at h
+    have hjl := get?_lt hj
+    by_cases hc : (c != 13 && c != 10) = true
+    · rw [if_pos hc] at h; cases h
+    · rw [if_neg hc] at h
+      rw [hv, set_extend i _ hge (by omega)] at h
+      by_cases hem : (PField.isEmpty ⟨i, skipToken b i - i⟩) = true
+      · rw [if_pos hem] at h; cases h
+      · rw [if_neg hem] at h
+        refine ⟨?_, ⟨c, rfl, ?_⟩, fs_flCRLF_ok b _ _ h⟩
+        · unfold PField.isEmpty at hem
+          simp only [beq_iff_eq] at hem
+          omega
+        · simp only [Bool.and_eq_true, bne_iff_ne, ne_eq, not_and, Decidable.not_not] at hc
+          by_cases h13 : c = 13
+          · exact Or.inl h13
+          · exact Or.inr (hc h13)
+
+theorem fs_flReqURI_ok (b : Buf) (i : Nat) (pl : PFLine) (hfit : b.size ≤ 65535)
+    (hv : pl.uri = PField.set i i) {e : Nat} {st : PFLine} (h : flReqURI b i pl = (e, Err.ok, st)) :
+    i < skipToken b i ∧ b[skipToken b i]? = some 32 ∧
+      ∃ pl1, pl1.version = PField.set (skipToken b i + 1) (skipToken b i + 1) ∧
+        flReqVer b (skipToken b i + 1) pl1 = (e, Err.ok, st) := by
+  have hge := fs_skipToken_ge b i
+  unfold flReqURI at h
+  simp only at h
+  cases hj : b[skipToken b i]? with
+  | none => rw [hj] at h; simp only at h; cases h
+  | some c =>
+    rw [hj] at h; simp only at h
+    have hjl := get?_lt hj
+    by_cases hc : (c != 32) = true
+    · rw [if_pos hc] at h; cases h
+    · rw [if_neg hc] at h
+      rw [hv, set_extend i _ hge (by omega)] at h
+      by_cases hem : (PField.isEmpty ⟨i, skipToken b i - i⟩) = true
+      · rw [if_pos hem] at h; cases h
+      · rw [if_neg hem] at h
+        refine ⟨?_, ?_, _, ?_, h⟩
+        · unfold PField.isEmpty at hem
+          simp only [beq_iff_eq] at hem
+          omega
+        · simp only [bne_iff_ne, ne_eq, Decidable.not_not] at hc
+          rw [hc]
+        · rfl
+
+theorem fs_flReqMethod_ok (b : Buf) (i : Nat) (pl : PFLine) (hfit : b.size ≤ 65535)
+    (hv : pl.method = PField.set i i) {e : Nat} {st : PFLine} (h : flReqMethod b i pl = (e, Err.ok, st)) :
+    i < skipToken b i ∧ b[skipToken b i]? = some 32 ∧
+      ∃ pl1, pl1.uri = PField.set (skipToken b i + 1) (skipToken b i + 1) ∧
+        flReqURI b (skipToken b i + 1) pl1 = (e, Err.ok, st) := by
+  have hge := fs_skipToken_ge b i
+  unfold flReqMethod at h
+  simp only at h
+  cases hj : b[skipToken b i]? with
+  | none => rw [hj] at h; simp only at h; cases h
+  | some c =>
+    rw [hj] at h; simp only at h
+    have hjl := get?_lt hj
+    by_cases hc : (c != 32) = true
+    · rw [if_pos hc] at h; cases h
+    · rw [if_neg hc] at h
+      rw [hv, set_extend i _ hge (by omega)] at h
+      by_cases hem : (PField.isEmpty ⟨i, skipToken b i - i⟩) = true
+      · rw [if_pos hem] at h; cases h
+      · rw [if_neg hem] at h
+        rw [field_get? b i (skipToken b i - i) (by omega) hfit] at h
+        simp only at h
+        refine ⟨?_, ?_, _, ?_, h⟩
+        · unfold PField.isEmpty at hem
+          simp only [beq_iff_eq] at hem
+          omega
+        · simp only [bne_iff_ne, ne_eq, Decidable.not_not] at hc
+          rw [hc]
+        · rfl
+
+/-! ### the reply branch, read backwards -/
+
+theorem fs_prefix_len (b : Buf) (o l : Nat) (hsz : o + 8 ≤ b.size)
+    (hpre : bcPrefix sipVerSP (b.extract o (o + 8)).toList = (l, true)) : l = 8 := by
+  have hsz : (b.extract o (o + 8)).toList.length = 8 := by simp; omega
+  unfold bcPrefix at hpre
+  have hle : sipVerSP.length ≤ (b.extract o (o + 8)).toList.length := by rw [hsz]; decide
+  rw [if_neg (by omega)] at hpre
+  have := prefixAux_true sipVerSP _ 0 l hle hpre
+  simpa [sipVerSP] using this
+
+theorem fs_flRplReason_ok (b : Buf) (i : Nat) (pl : PFLine) {e : Nat} {st : PFLine}
+    (h : flRplReason b i pl = (e, Err.ok, st)) : ∃ crl, skipCRLF b (skipToEOL b i) = (e, crl, Err.ok) := by
+  unfold flRplReason skipLine at h
+  rcases hs : skipCRLF b (skipToEOL b i) with ⟨n, crl, er⟩
+  rw [hs] at h
+  cases er <;> simp only at h <;> cases h
+  exact ⟨crl, rfl⟩
+
+theorem fs_flReply_ok (b : Buf) (o : Nat) (pl : PFLine) {e : Nat} {st : PFLine}
+    (h : flReply b o 8 pl = (e, Err.ok, st)) :
+    ∃ d0 d1 d2, b[o + 8]? = some d0 ∧ b[o + 9]? = some d1 ∧ b[o + 10]? = some d2 ∧
+      isDigit d0 = true ∧ isDigit d1 = true ∧ isDigit d2 = true ∧ b[o + 11]? = some 32 ∧
+      ∃ crl, skipCRLF b (skipToEOL b (o + 12)) = (e, crl, Err.ok) := by
+  unfold flReply at h
+  simp only at h
+  rw [show o + 8 + 1 = o + 9 from rfl, show o + 8 + 2 = o + 10 from rfl, show o + 8 + 3 = o + 11 from rfl,
+    show o + 8 + 4 = o + 12 from rfl] at h
+  cases h0 : b[o + 8]? with
+  | none => rw [h0] at h; simp only at h; cases h
+  | some d0 =>
+    cases h1 : b[o + 9]? with
+    | none => rw [h0, h1] at h; simp only at h; cases h
+    | some d1 =>
+      cases h2 : b[o + 10]? with
+      | none => rw [h0, h1, h2] at h; simp only at h; cases h
+      | some d2 =>
+        cases h3 : b[o + 11]? with
+        | none => rw [h0, h1, h2, h3] at h; simp only at h; cases h
+        | some sp =>
+          rw [h0, h1, h2, h3] at h; simp only at h
+          by_cases hc : (sp != 32 || !(isDigit d0 && isDigit d1 && isDigit d2)) = true
+          · rw [if_pos hc] at h; cases h
+          · rw [if_neg hc] at h
+            simp only [Bool.or_eq_true, bne_iff_ne, ne_eq, Bool.not_eq_true', Bool.and_eq_false_iff, not_or,
+              Decidable.not_not, Bool.not_eq_false] at hc
+            obtain ⟨hsp, ⟨hd0, hd1⟩, hd2⟩ := hc
+            subst hsp
+            exact ⟨d0, d1, d2, rfl, rfl, rfl, hd0, hd1, hd2, rfl, fs_flRplReason_ok b _ _ h⟩
+
+/-! ### the version test: `SIP/2.0 SP` in any letter case -/
+
+theorem fs_prefixAux_iff (p s : List UInt8) (i : Nat) (hl : p.length = s.length) :
+    (prefixAux p s i).2 = true ↔ lowerL s = lowerL p := by
+  induction p generalizing s i with
+  | nil =>
+    cases s with
+    | nil => simp [prefixAux, lowerL]
+    | cons v vs => simp at hl
+  | cons x xs ih =>
+    cases s with
+    | nil => simp at hl
+    | cons v vs =>
+      simp only [prefixAux, eqFold_iff]
+      by_cases hx : lowerB v = lowerB x
+      · simp only [hx, beq_self_eq_true, ↓reduceIte]
+        rw [ih vs (i + 1) (by simpa using hl)]
+        simp [lowerL, hx]
+      · have : (lowerB v == lowerB x) = false := by simpa using hx
+        simp only [this, Bool.false_eq_true, ↓reduceIte]
+        simp [lowerL, hx]
+
+theorem fs_extract_get (b : Buf) (o n k : Nat) (hk : k < n) :
+    (b.extract o (o + n)).toList[k]? = b[o + k]? := by
+  simp [hk]
+
+/-- the version test of ParseFLine succeeds iff the eight bytes at `o`, ASCII-lower-cased, read `sip/2.0 ` -/
+theorem fs_ver_iff (b : Buf) (o : Nat) (hsz : o + 8 ≤ b.size) :
+    (bcPrefix sipVerSP (b.extract o (o + 8)).toList).2 = true ↔
+      lowerL (b.extract o (o + 8)).toList = lowerL sipVerSP := by
+  have hlen : (b.extract o (o + 8)).toList.length = 8 := by simp; omega
+  unfold bcPrefix
+  rw [if_neg (by rw [hlen]; decide)]
+  exact fs_prefixAux_iff _ _ 0 (by rw [hlen]; rfl)
+
+/-- … and fails iff they do not -/
+theorem fs_notver_iff (b : Buf) (o : Nat) (hsz : o + 8 ≤ b.size) :
+    (bcPrefix sipVerSP (b.extract o (o + 8)).toList).2 = false ↔
+      lowerL (b.extract o (o + 8)).toList ≠ lowerL sipVerSP := by
+  have h := fs_ver_iff b o hsz
+  constructor
+  · intro hf ht
+    rw [h.2 ht] at hf
+    cases hf
+  · intro hne
+    cases hb : (bcPrefix sipVerSP (b.extract o (o + 8)).toList).2
+    · rfl
+    · exact (hne (h.1 hb)).elim
+
+theorem fs_lower_lws : ∀ a, a < 256 → isLWSch (lowerB (UInt8.ofNat a)) = isLWSch (UInt8.ofNat a) := by
+  decide +kernel
+
+theorem fs_lower_lws' (c : UInt8) : isLWSch (lowerB c) = isLWSch c := by
+  have := fs_lower_lws c.toNat (UInt8.toNat_lt c)
+  simpa using this
+
+theorem fs_lower_sp : ∀ a, a < 256 → lowerB (UInt8.ofNat a) = 32 → UInt8.ofNat a = 32 := by
+  decide +kernel
+
+theorem fs_lower_sp' (c : UInt8) (h : lowerB c = 32) : c = 32 := by
+  have := fs_lower_sp c.toNat (UInt8.toNat_lt c)
+  simp at this
+  exact this h
+
+theorem fs_ver_byte (b : Buf) (o : Nat) (h : lowerL (b.extract o (o + 8)).toList = lowerL sipVerSP) (k : Nat) (hk : k < 8) :
+    ∃ c, b[o + k]? = some c ∧ some (lowerB c) = (lowerL sipVerSP)[k]? := by
+  have h1 := congrArg (fun l => l[k]?) h
+  simp only [lowerL, List.getElem?_map, fs_extract_get b o 8 k hk] at h1
+  cases hc : b[o + k]? with
+  | none =>
+    rw [hc] at h1
+    exfalso
+    rcases k with _ | _ | _ | _ | _ | _ | _ | _ | k <;> first | omega | (simp [sipVerSP] at h1)
+  | some c =>
+    rw [hc] at h1
+    exact ⟨c, rfl, by simpa [lowerL] using h1⟩
+
+theorem fs_lower_ver : lowerL sipVerSP = [115, 105, 112, 47, 50, 46, 48, 32] := by decide
+
+theorem fs_ver_shape (b : Buf) (o : Nat) (h : lowerL (b.extract o (o + 8)).toList = lowerL sipVerSP) :
+    TokenRun b o (o + 7) ∧ b[o + 7]? = some 32 := by
+  constructor
+  · intro j hj1 hj2
+    obtain ⟨c, hc, hl⟩ := fs_ver_byte b o h (j - o) (by omega)
+    rw [show o + (j - o) = j by omega] at hc
+    refine ⟨c, hc, ?_⟩
+    rw [← fs_lower_lws']
+    rw [fs_lower_ver] at hl
+    have hk : j - o < 7 := by omega
+    revert hl hk
+    generalize j - o = k
+    intro hl hk
+    rcases k with _ | _ | _ | _ | _ | _ | _ | k <;> first | omega | (simp at hl; rw [hl]; decide)
+  · obtain ⟨c, hc, hl⟩ := fs_ver_byte b o h 7 (by omega)
+    rw [fs_lower_ver] at hl
+    simp at hl
+    rw [hc, fs_lower_sp' c hl]
+
+/-! ### the two grammars and the objects they produce -/
+
+/-- the text at `o` is a request line `method SP uri SP version EOL`: the three tokens are `[o, m)`, `[m+1, u)`,
+    `[u+1, v)`, each non-empty and free of SP / HT / CR / LF, separated by exactly one SP; the line end starts at
+    `v` and the next line at `e`; the first eight bytes are not `SIP/2.0 SP` in any letter case; ParseFLine's own
+    look-ahead rule (14 bytes available) is part of the predicate -/
+structure FsReqLine (b : Buf) (o m u v e : Nat) : Prop where
+  look : ¬ b.size - o < 14
+  notVer : (bcPrefix sipVerSP (b.extract o (o + 8)).toList).2 = false
+  mRun : TokenRun b o m
+  mNe : o < m
+  sp1 : b[m]? = some 32
+  uRun : TokenRun b (m + 1) u
+  uNe : m + 1 < u
+  sp2 : b[u]? = some 32
+  vRun : TokenRun b (u + 1) v
+  vNe : u + 1 < v
+  eolc : ∃ c, b[v]? = some c ∧ (c = 13 ∨ c = 10)
+  eol : ∃ crl, skipCRLF b v = (e, crl, Err.ok)
+
+/-- the text at `o` is a status line `SIP/2.0 SP d0 d1 d2 SP reason EOL` (version in any letter case): the reason is
+    `[o+12, v)`, possibly empty, free of CR / LF; the line end starts at `v` and the next line at `e` -/
+structure FsStatusLine (b : Buf) (o v e : Nat) (d0 d1 d2 : UInt8) : Prop where
+  look : ¬ b.size - o < 14
+  ver : (bcPrefix sipVerSP (b.extract o (o + 8)).toList).2 = true
+  c0 : b[o + 8]? = some d0
+  c1 : b[o + 9]? = some d1
+  c2 : b[o + 10]? = some d2
+  dig0 : isDigit d0 = true
+  dig1 : isDigit d1 = true
+  dig2 : isDigit d2 = true
+  sp : b[o + 11]? = some 32
+  rRun : LineRun b (o + 12) v
+  rGe : o + 12 ≤ v
+  eolc : ∃ c, b[v]? = some c ∧ (c = 13 ∨ c = 10)
+  eol : ∃ crl, skipCRLF b v = (e, crl, Err.ok)
+
+/-- what ParseFLine reports for a request line -/
+def fsReqObj (b : Buf) (o m u v : Nat) : PFLine :=
+  { method := ⟨o, m - o⟩, uri := ⟨m + 1, u - (m + 1)⟩, version := ⟨u + 1, v - (u + 1)⟩, methodNo := getMethodNo (b.extract o m), state := .fin }
+
+/-- what ParseFLine reports for a status line -/
+def fsRplObj (o v : Nat) (d0 d1 d2 : UInt8) : PFLine :=
+  { version := ⟨o, 7⟩, statusCode := ⟨o + 8, 3⟩, status := (d0.toNat - 48) * 100 + (d1.toNat - 48) * 10 + (d2.toNat - 48), reason := ⟨o + 12, v - (o + 12)⟩, state := .fin }
+
+/-- completeness, restated over the predicates (from `parseFLine_request`) -/
+theorem fs_complete_req (b : Buf) (o m u v e : Nat) (hfit : b.size ≤ 65535) (hg : FsReqLine b o m u v e) :
+    parseFLine b o {} = (e, Err.ok, fsReqObj b o m u v) := by
+  obtain ⟨c, hc1, hc2⟩ := hg.eolc
+  obtain ⟨crl, hcrl⟩ := hg.eol
+  exact parseFLine_request b o m u v e crl hfit hg.look hg.notVer hg.mRun hg.mNe hg.sp1 hg.uRun hg.uNe hg.sp2
+    hg.vRun hg.vNe hc1 hc2 hcrl
+
+/-- completeness, restated over the predicates (from `parseFLine_reply`) -/
+theorem fs_complete_rpl (b : Buf) (o v e : Nat) (d0 d1 d2 : UInt8) (hfit : b.size ≤ 65535)
+    (hg : FsStatusLine b o v e d0 d1 d2) : parseFLine b o {} = (e, Err.ok, fsRplObj o v d0 d1 d2) := by
+  obtain ⟨c, hc1, hc2⟩ := hg.eolc
+  obtain ⟨crl, hcrl⟩ := hg.eol
+  rcases hp : bcPrefix sipVerSP (b.extract o (o + 8)).toList with ⟨l, ok⟩
+  have hv := hg.ver
+  rw [hp] at hv
+  simp only at hv
+  subst hv
+  exact parseFLine_reply b o v e crl l hfit hg.look hp hg.c0 hg.c1 hg.c2 hg.dig0 hg.dig1 hg.dig2 hg.sp hg.rRun hg.rGe
+    hc1 hc2 hcrl
+
+/-! ### soundness -/
+
+/-- **soundness, grammar part**: an OK verdict on a new object means the text at `o` is a request line or a status
+    line; the positions are the ones the scanners stop at -/
+theorem fs_sound_grammar (b : Buf) (o e : Nat) (st : PFLine) (hfit : b.size ≤ 65535)
+    (h : parseFLine b o {} = (e, Err.ok, st)) :
+    (∃ m u v, FsReqLine b o m u v e) ∨ (∃ v d0 d1 d2, FsStatusLine b o v e d0 d1 d2) := by
+  unfold parseFLine at h
+  simp only at h
+  by_cases hlen : b.size - o < 14
+  · rw [if_pos hlen] at h; cases h
+  · rw [if_neg hlen] at h
+    rcases hp : bcPrefix sipVerSP (b.extract o (o + 8)).toList with ⟨l, ok⟩
+    rw [hp] at h
+    cases ok
+    · -- request
+      simp only at h
+      left
+      obtain ⟨hm0, hsp1, pl1, hpl1, h1⟩ := fs_flReqMethod_ok b o _ hfit rfl h
+      obtain ⟨hu0, hsp2, pl2, hpl2, h2⟩ := fs_flReqURI_ok b _ pl1 hfit hpl1 h1
+      obtain ⟨hv0, hc, hcrl⟩ := fs_flReqVer_ok b _ pl2 hfit hpl2 h2
+      exact ⟨skipToken b o, skipToken b (skipToken b o + 1), skipToken b (skipToken b (skipToken b o + 1) + 1),
+        { look := hlen, notVer := by rw [hp], mRun := fs_skipToken_run b o, mNe := hm0, sp1 := hsp1,
+          uRun := fs_skipToken_run b _, uNe := hu0, sp2 := hsp2, vRun := fs_skipToken_run b _, vNe := hv0,
+          eolc := hc, eol := hcrl }⟩
+    · -- reply
+      simp only at h
+      right
+      have hl := fs_prefix_len b o l (by omega) hp
+      subst hl
+      obtain ⟨d0, d1, d2, h0, h1, h2, hd0, hd1, hd2, hsp, crl, hcrl⟩ := fs_flReply_ok b o _ h
+      exact ⟨skipToEOL b (o + 12), d0, d1, d2,
+        { look := hlen, ver := by rw [hp], c0 := h0, c1 := h1, c2 := h2, dig0 := hd0, dig1 := hd1, dig2 := hd2,
+          sp := hsp, rRun := fs_skipToEOL_run b _, rGe := fs_skipToEOL_ge b _, eolc := fs_skipCRLF_ok hcrl,
+          eol := ⟨crl, hcrl⟩ }⟩
+
+/-- **soundness (C08, converse of `parseFLine_request` / `parseFLine_reply`)**: if ParseFLine says OK on a new object
+    then the consumed text `b[o, e)` is an instance of one of the two grammars and the reported object is exactly
+    the one made of its components -/
+theorem parseFLine_sound (b : Buf) (o e : Nat) (st : PFLine) (hfit : b.size ≤ 65535)
+    (h : parseFLine b o {} = (e, Err.ok, st)) :
+    (∃ m u v, FsReqLine b o m u v e ∧ st = fsReqObj b o m u v) ∨
+      (∃ v d0 d1 d2, FsStatusLine b o v e d0 d1 d2 ∧ st = fsRplObj o v d0 d1 d2) := by
+  rcases fs_sound_grammar b o e st hfit h with ⟨m, u, v, hg⟩ | ⟨v, d0, d1, d2, hg⟩
+  · left
+    refine ⟨m, u, v, hg, ?_⟩
+    have := fs_complete_req b o m u v e hfit hg
+    rw [h] at this
+    cases this; rfl
+  · right
+    refine ⟨v, d0, d1, d2, hg, ?_⟩
+    have := fs_complete_rpl b o v e d0 d1 d2 hfit hg
+    rw [h] at this
+    cases this; rfl
+
+/-! ### corollaries in the words of the property -/
+
+/-- fewer than 14 bytes available: MoreBytes, never OK, nothing touched -/
+theorem fs_short (b : Buf) (o : Nat) (h : b.size - o < 14) : parseFLine b o {} = (o, Err.moreBytes, {}) := by
+  unfold parseFLine
+  simp only
+  rw [if_pos h]
+
+/-- **OK iff grammar**: on a new object ParseFLine returns OK with next-line offset `e` iff the text at `o` is a request
+    line or a status line ending at `e` (both predicates contain the 14-byte look-ahead rule) -/
+theorem fline_ok_iff_at (b : Buf) (o e : Nat) (hfit : b.size ≤ 65535) :
+    (∃ st, parseFLine b o {} = (e, Err.ok, st)) ↔
+      ((∃ m u v, FsReqLine b o m u v e) ∨ (∃ v d0 d1 d2, FsStatusLine b o v e d0 d1 d2)) := by
+  constructor
+  · rintro ⟨st, h⟩
+    exact fs_sound_grammar b o e st hfit h
+  · rintro (⟨m, u, v, hg⟩ | ⟨v, d0, d1, d2, hg⟩)
+    · exact ⟨_, fs_complete_req b o m u v e hfit hg⟩
+    · exact ⟨_, fs_complete_rpl b o v e d0 d1 d2 hfit hg⟩
+
+/-- **OK iff grammar**, verdict only -/
+theorem fline_ok_iff (b : Buf) (o : Nat) (hfit : b.size ≤ 65535) :
+    (parseFLine b o {}).2.1 = Err.ok ↔
+      ((∃ m u v e, FsReqLine b o m u v e) ∨ (∃ v e d0 d1 d2, FsStatusLine b o v e d0 d1 d2)) := by
+  constructor
+  · intro h
+    rcases hp : parseFLine b o {} with ⟨e, er, st⟩
+    rw [hp] at h
+    simp only at h
+    subst h
+    rcases fs_sound_grammar b o e st hfit hp with ⟨m, u, v, hg⟩ | ⟨v, d0, d1, d2, hg⟩
+    · exact Or.inl ⟨m, u, v, e, hg⟩
+    · exact Or.inr ⟨v, e, d0, d1, d2, hg⟩
+  · rintro (⟨m, u, v, e, hg⟩ | ⟨v, e, d0, d1, d2, hg⟩)
+    · rw [fs_complete_req b o m u v e hfit hg]
+    · rw [fs_complete_rpl b o v e d0 d1 d2 hfit hg]
+
+/-- a text that is neither a request line nor a status line is never accepted -/
+theorem fline_reject (b : Buf) (o : Nat) (hfit : b.size ≤ 65535)
+    (hnr : ¬ ∃ m u v e, FsReqLine b o m u v e) (hns : ¬ ∃ v e d0 d1 d2, FsStatusLine b o v e d0 d1 d2) :
+    (parseFLine b o {}).2.1 ≠ Err.ok := by
+  intro h
+  rcases (fline_ok_iff b o hfit).1 h with h1 | h1
+  · exact hnr h1
+  · exact hns h1
+
+/-! ### the decomposition is unique -/
+
+/-- the two grammars exclude each other -/
+theorem fs_req_not_status (b : Buf) (o m u v e v' e' : Nat) (d0 d1 d2 : UInt8) (hr : FsReqLine b o m u v e)
+    (hs : FsStatusLine b o v' e' d0 d1 d2) : False := by
+  have h1 := hr.notVer
+  rw [hs.ver] at h1
+  cases h1
+
+/-- the positions of a request line are the stop positions of the token scanner: there is one way to read it -/
+theorem fs_req_positions (b : Buf) (o m u v e : Nat) (hg : FsReqLine b o m u v e) :
+    m = skipToken b o ∧ u = skipToken b (m + 1) ∧ v = skipToken b (u + 1) := by
+  have h32 : isLWSch (32 : UInt8) = true := by decide
+  obtain ⟨c, hc1, hc2⟩ := hg.eolc
+  have hcl : isLWSch c = true := by rcases hc2 with rfl | rfl <;> decide
+  refine ⟨?_, ?_, ?_⟩
+  · exact (skipToken_run b o m (Nat.le_of_lt hg.mNe) hg.mRun hg.sp1 h32).symm
+  · exact (skipToken_run b (m + 1) u (Nat.le_of_lt hg.uNe) hg.uRun hg.sp2 h32).symm
+  · exact (skipToken_run b (u + 1) v (Nat.le_of_lt hg.vNe) hg.vRun hc1 hcl).symm
+
+theorem fs_req_unique (b : Buf) (o m u v e m' u' v' e' : Nat) (hg : FsReqLine b o m u v e)
+    (hg' : FsReqLine b o m' u' v' e') : m = m' ∧ u = u' ∧ v = v' ∧ e = e' := by
+  obtain ⟨h1, h2, h3⟩ := fs_req_positions b o m u v e hg
+  obtain ⟨h1', h2', h3'⟩ := fs_req_positions b o m' u' v' e' hg'
+  have hm : m = m' := by rw [h1, h1']
+  subst hm
+  have hu : u = u' := by rw [h2, h2']
+  subst hu
+  have hv : v = v' := by rw [h3, h3']
+  subst hv
+  obtain ⟨crl, hc⟩ := hg.eol
+  obtain ⟨crl', hc'⟩ := hg'.eol
+  rw [hc] at hc'
+  cases hc'
+  exact ⟨rfl, rfl, rfl, rfl⟩
+
+theorem fs_status_unique (b : Buf) (o v e v' e' : Nat) (d0 d1 d2 d0' d1' d2' : UInt8)
+    (hg : FsStatusLine b o v e d0 d1 d2) (hg' : FsStatusLine b o v' e' d0' d1' d2') :
+    v = v' ∧ e = e' ∧ d0 = d0' ∧ d1 = d1' ∧ d2 = d2' := by
+  have hv : ∀ v e d0 d1 d2, FsStatusLine b o v e d0 d1 d2 → v = skipToEOL b (o + 12) := by
+    intro v e d0 d1 d2 hg
+    obtain ⟨c, hc1, hc2⟩ := hg.eolc
+    have hcl : isCRLFch c = true := by rcases hc2 with rfl | rfl <;> decide
+    exact (skipToEOL_run b (o + 12) v hg.rGe hg.rRun hc1 hcl).symm
+  have h1 := hv v e d0 d1 d2 hg
+  have h1' := hv v' e' d0' d1' d2' hg'
+  have hvv : v = v' := by rw [h1, h1']
+  subst hvv
+  obtain ⟨crl, hc⟩ := hg.eol
+  obtain ⟨crl', hc'⟩ := hg'.eol
+  rw [hc] at hc'
+  cases hc'
+  have e0 := hg.c0; rw [hg'.c0] at e0; cases e0
+  have e1 := hg.c1; rw [hg'.c1] at e1; cases e1
+  have e2 := hg.c2; rw [hg'.c2] at e2; cases e2
+  exact ⟨rfl, rfl, rfl, rfl, rfl⟩
+
+/-! ### the line end -/
+
+/-- what `skipCRLF` accepts as a line end: CR LF, a CR followed by a byte other than LF, or an LF followed by any
+    byte (one byte of look-ahead is always required) -/
+theorem fs_skipCRLF_ok_shape {b : Buf} {i e crl : Nat} (h : skipCRLF b i = (e, crl, Err.ok)) :
+    (b[i]? = some 13 ∧ b[i + 1]? = some 10 ∧ e = i + 2 ∧ crl = 2) ∨
+    (b[i]? = some 13 ∧ (∃ c1, b[i + 1]? = some c1 ∧ c1 ≠ 10) ∧ e = i + 1 ∧ crl = 1) ∨
+    (b[i]? = some 10 ∧ (∃ c1, b[i + 1]? = some c1) ∧ e = i + 1 ∧ crl = 1) := by
+  unfold skipCRLF at h
+  cases h1 : b[i + 1]? with
+  | none =>
+    rw [h1] at h; simp only at h
+    split at h
+    · split at h <;> cases h
+    · cases h
+  | some c1 =>
+    rw [h1] at h; simp only at h
+    cases h0 : b[i]? with
+    | none => rw [h0] at h; simp only at h; cases h
+    | some c0 =>
+      rw [h0] at h; simp only at h
+      by_cases h13 : (c0 == 13) = true
+      · rw [if_pos h13] at h
+        have e13 : c0 = 13 := by simpa using h13
+        subst e13
+        by_cases h10 : (c1 == 10) = true
+        · rw [if_pos h10] at h
+          have e10 : c1 = 10 := by simpa using h10
+          subst e10
+          cases h
+          exact Or.inl ⟨rfl, rfl, rfl, rfl⟩
+        · rw [if_neg h10] at h
+          cases h
+          exact Or.inr (Or.inl ⟨rfl, ⟨c1, rfl, by simpa using h10⟩, rfl, rfl⟩)
+      · rw [if_neg h13] at h
+        by_cases h10 : (c0 == 10) = true
+        · rw [if_pos h10] at h
+          have e10 : c0 = 10 := by simpa using h10
+          subst e10
+          cases h
+          exact Or.inr (Or.inr ⟨rfl, ⟨c1, rfl⟩, rfl, rfl⟩)
+        · rw [if_neg h10] at h; cases h
+
+/-! ### never mis-split, in terms of the reported object alone -/
+
+/-- **never mis-split**: whenever the verdict is OK on a new object, the reported spans tile the line.
+    Request shape: method, uri, version are three non-empty spans without SP / HT / CR / LF, the method starts at
+    `o`, each next span starts exactly one byte (an SP) after the previous one, the line end follows the version
+    directly, and the reply fields stay untouched.
+    Reply shape: the version is the 7 bytes at `o` (no SP / HT / CR / LF) followed by one SP, the status code is
+    three digits followed by one SP, the reason is a possibly empty span without CR / LF directly followed by the
+    line end, and the request fields stay untouched. -/
+theorem fline_never_missplit (b : Buf) (o e : Nat) (st : PFLine) (hfit : b.size ≤ 65535)
+    (h : parseFLine b o {} = (e, Err.ok, st)) :
+    (st.method.offs = o ∧ 0 < st.method.len ∧ TokenRun b st.method.offs (st.method.offs + st.method.len) ∧
+      b[st.method.offs + st.method.len]? = some 32 ∧
+      st.uri.offs = st.method.offs + st.method.len + 1 ∧ 0 < st.uri.len ∧
+      TokenRun b st.uri.offs (st.uri.offs + st.uri.len) ∧
+      b[st.uri.offs + st.uri.len]? = some 32 ∧
+      st.version.offs = st.uri.offs + st.uri.len + 1 ∧ 0 < st.version.len ∧
+      TokenRun b st.version.offs (st.version.offs + st.version.len) ∧
+      (∃ crl, skipCRLF b (st.version.offs + st.version.len) = (e, crl, Err.ok)) ∧
+      st.statusCode = {} ∧ st.reason = {} ∧ st.status = 0 ∧ st.state = .fin ∧ st.pnc = false)
+    ∨
+    (st.version = ⟨o, 7⟩ ∧ TokenRun b o (o + 7) ∧ b[o + 7]? = some 32 ∧
+      st.statusCode = ⟨o + 8, 3⟩ ∧ (∀ k, k < 3 → ∃ d, b[o + 8 + k]? = some d ∧ isDigit d = true) ∧
+      b[o + 11]? = some 32 ∧
+      st.reason.offs = o + 12 ∧ LineRun b st.reason.offs (st.reason.offs + st.reason.len) ∧
+      (∃ crl, skipCRLF b (st.reason.offs + st.reason.len) = (e, crl, Err.ok)) ∧
+      st.method = {} ∧ st.uri = {} ∧ st.methodNo = 0 ∧ st.state = .fin ∧ st.pnc = false) := by
+  rcases parseFLine_sound b o e st hfit h with ⟨m, u, v, hg, rfl⟩ | ⟨v, d0, d1, d2, hg, rfl⟩
+  · left
+    have hm := hg.mNe
+    have hu := hg.uNe
+    have hv := hg.vNe
+    unfold fsReqObj
+    simp only
+    have e1 : o + (m - o) = m := by omega
+    have e2 : m + 1 + (u - (m + 1)) = u := by omega
+    have e3 : u + 1 + (v - (u + 1)) = v := by omega
+    rw [e1, e2, e3]
+    exact ⟨trivial, by omega, hg.mRun, hg.sp1, rfl, by omega, hg.uRun, hg.sp2, rfl, by omega, hg.vRun, hg.eol,
+      trivial, trivial, trivial, trivial, trivial⟩
+  · right
+    have hv := hg.rGe
+    have hsz : o + 8 ≤ b.size := by have := hg.look; omega
+    obtain ⟨t1, t2⟩ := fs_ver_shape b o ((fs_ver_iff b o hsz).1 hg.ver)
+    unfold fsRplObj
+    simp only
+    have e1 : o + 12 + (v - (o + 12)) = v := by omega
+    rw [e1]
+    refine ⟨trivial, t1, t2, trivial, ?_, hg.sp, trivial, hg.rRun, hg.eol, trivial, trivial, trivial, trivial, trivial⟩
+    intro k hk
+    rcases k with _ | _ | _ | k
+    · exact ⟨d0, hg.c0, hg.dig0⟩
+    · exact ⟨d1, hg.c1, hg.dig1⟩
+    · exact ⟨d2, hg.c2, hg.dig2⟩
+    · omega
+
+/-! ### request vs reply, the numeric status -/
+
+theorem fs_digit_range {d : UInt8} (h : isDigit d = true) : 48 ≤ d.toNat ∧ d.toNat ≤ 57 := by
+  unfold isDigit at h
+  simp only [Bool.and_eq_true, decide_eq_true_eq] at h
+  have h1 : (48 : UInt8).toNat ≤ d.toNat := UInt8.le_iff_toNat_le.mp h.1
+  have h2 : d.toNat ≤ (57 : UInt8).toNat := UInt8.le_iff_toNat_le.mp h.2
+  exact ⟨h1, h2⟩
+
+/-- the reported status is the decimal value of the three digits: between 0 and 999, and 0 only for `000` -/
+theorem fs_status_value (o v : Nat) (d0 d1 d2 : UInt8) (h0 : isDigit d0 = true) (h1 : isDigit d1 = true)
+    (h2 : isDigit d2 = true) :
+    (fsRplObj o v d0 d1 d2).status = 100 * (d0.toNat - 48) + 10 * (d1.toNat - 48) + (d2.toNat - 48) ∧
+      d0.toNat - 48 ≤ 9 ∧ d1.toNat - 48 ≤ 9 ∧ d2.toNat - 48 ≤ 9 ∧ (fsRplObj o v d0 d1 d2).status ≤ 999 ∧
+      ((fsRplObj o v d0 d1 d2).status = 0 ↔ d0 = 48 ∧ d1 = 48 ∧ d2 = 48) := by
+  have r0 := fs_digit_range h0
+  have r1 := fs_digit_range h1
+  have r2 := fs_digit_range h2
+  have hs : (fsRplObj o v d0 d1 d2).status = (d0.toNat - 48) * 100 + (d1.toNat - 48) * 10 + (d2.toNat - 48) := rfl
+  rw [hs]
+  refine ⟨by omega, by omega, by omega, by omega, by omega, ?_⟩
+  constructor
+  · intro hz
+    have z0 : d0.toNat = 48 := by omega
+    have z1 : d1.toNat = 48 := by omega
+    have z2 : d2.toNat = 48 := by omega
+    exact ⟨UInt8.toNat_inj.mp z0, UInt8.toNat_inj.mp z1, UInt8.toNat_inj.mp z2⟩
+  · rintro ⟨rfl, rfl, rfl⟩
+    rfl
+
+/-- **request vs reply**: after an OK verdict on a new object `Request()` (status = 0) is true exactly for the request
+    lines — and for the status lines whose code is `000` (accepted by ParseFLine; see the examples below) -/
+theorem fline_request_iff (b : Buf) (o e : Nat) (st : PFLine) (hfit : b.size ≤ 65535)
+    (h : parseFLine b o {} = (e, Err.ok, st)) :
+    st.request = true ↔ ((∃ m u v, FsReqLine b o m u v e) ∨ (∃ v, FsStatusLine b o v e 48 48 48)) := by
+  rcases parseFLine_sound b o e st hfit h with ⟨m, u, v, hg, rfl⟩ | ⟨v, d0, d1, d2, hg, rfl⟩
+  · constructor
+    · intro _; exact Or.inl ⟨m, u, v, hg⟩
+    · intro _; rfl
+  · have hv := (fs_status_value o v d0 d1 d2 hg.dig0 hg.dig1 hg.dig2).2.2.2.2.2
+    constructor
+    · intro hr
+      have hz : (fsRplObj o v d0 d1 d2).status = 0 := by
+        unfold PFLine.request at hr
+        simpa using hr
+      obtain ⟨rfl, rfl, rfl⟩ := hv.1 hz
+      exact Or.inr ⟨v, hg⟩
+    · rintro (⟨m, u, v', hr⟩ | ⟨v', hs⟩)
+      · exact (fs_req_not_status b o m u v' e v e d0 d1 d2 hr hg).elim
+      · obtain ⟨_, _, rfl, rfl, rfl⟩ := fs_status_unique b o v e v' e d0 d1 d2 48 48 48 hg hs
+        rfl
+
+/-- a non-zero status means a status line, and the status is the value of its digits -/
+theorem fline_reply_of_status (b : Buf) (o e : Nat) (st : PFLine) (hfit : b.size ≤ 65535)
+    (h : parseFLine b o {} = (e, Err.ok, st)) (hs : st.status ≠ 0) :
+    ∃ v d0 d1 d2, FsStatusLine b o v e d0 d1 d2 ∧ st = fsRplObj o v d0 d1 d2 ∧
+      st.status = 100 * (d0.toNat - 48) + 10 * (d1.toNat - 48) + (d2.toNat - 48) := by
+  rcases parseFLine_sound b o e st hfit h with ⟨m, u, v, hg, rfl⟩ | ⟨v, d0, d1, d2, hg, rfl⟩
+  · exact (hs rfl).elim
+  · exact ⟨v, d0, d1, d2, hg, rfl, (fs_status_value o v d0 d1 d2 hg.dig0 hg.dig1 hg.dig2).1⟩
+
+/-! ### the reported spans, as texts -/
+
+/-- for a request line the three reported fields read back (Go `Get(buf)`) the three tokens, and the numeric method
+    is `GetMethodNo` of the method token -/
+theorem fs_req_texts (b : Buf) (o m u v e : Nat) (hfit : b.size ≤ 65535) (hg : FsReqLine b o m u v e) :
+    (fsReqObj b o m u v).method.get? b = some (b.extract o m) ∧
+      (fsReqObj b o m u v).uri.get? b = some (b.extract (m + 1) u) ∧
+      (fsReqObj b o m u v).version.get? b = some (b.extract (u + 1) v) ∧
+      (fsReqObj b o m u v).methodNo = getMethodNo (b.extract o m) := by
+  obtain ⟨c, hc1, _⟩ := hg.eolc
+  have hvlt := get?_lt hc1
+  have hm := hg.mNe
+  have hu := hg.uNe
+  have hv := hg.vNe
+  have g1 := field_get? b o (m - o) (by omega) hfit
+  have g2 := field_get? b (m + 1) (u - (m + 1)) (by omega) hfit
+  have g3 := field_get? b (u + 1) (v - (u + 1)) (by omega) hfit
+  rw [show o + (m - o) = m by omega] at g1
+  rw [show m + 1 + (u - (m + 1)) = u by omega] at g2
+  rw [show u + 1 + (v - (u + 1)) = v by omega] at g3
+  exact ⟨g1, g2, g3, rfl⟩
+
+/-- for a status line: the version is the seven bytes at `o`, the status code the three digits, the reason the rest
+    of the line without the terminator -/
+theorem fs_rpl_texts (b : Buf) (o v e : Nat) (d0 d1 d2 : UInt8) (hfit : b.size ≤ 65535)
+    (hg : FsStatusLine b o v e d0 d1 d2) :
+    (fsRplObj o v d0 d1 d2).version.get? b = some (b.extract o (o + 7)) ∧
+      (fsRplObj o v d0 d1 d2).statusCode.get? b = some (b.extract (o + 8) (o + 11)) ∧
+      (fsRplObj o v d0 d1 d2).reason.get? b = some (b.extract (o + 12) v) := by
+  obtain ⟨c, hc1, _⟩ := hg.eolc
+  have hvlt := get?_lt hc1
+  have hv := hg.rGe
+  have g1 := field_get? b o 7 (by omega) hfit
+  have g2 := field_get? b (o + 8) 3 (by omega) hfit
+  have g3 := field_get? b (o + 12) (v - (o + 12)) (by omega) hfit
+  rw [show o + 12 + (v - (o + 12)) = v by omega] at g3
+  exact ⟨g1, g2, g3⟩
+
+/-! ### objects that were suspended and resumed -/
+
+/-- `(b, o', pl)` is what a caller holds after starting with a new object at offset `o` and going through any number
+    of rounds "MoreBytes verdict, more input appended, call again at the returned offset with the same object" -/
+inductive FsResumed (o : Nat) : Buf → Nat → PFLine → Prop
+  | new (b : Buf) (ho : o ≤ b.size) : FsResumed o b o {}
+  | more (b s : Buf) (o1 o2 : Nat) (pl1 pl2 : PFLine) (hfit : b.size ≤ 65535) (hr : FsResumed o b o1 pl1)
+      (hm : parseFLine b o1 pl1 = (o2, Err.moreBytes, pl2)) : FsResumed o (b ++ s) o2 pl2
+
+/-- resuming gives what a single call on the whole buffer gives (from the L2 theorem `parseFLine_resume`) -/
+theorem fs_resumed_eq {o : Nat} {b : Buf} {o1 : Nat} {pl1 : PFLine} (hr : FsResumed o b o1 pl1) :
+    parseFLine b o1 pl1 = parseFLine b o {} ∧ o ≤ b.size := by
+  induction hr with
+  | new b ho => exact ⟨rfl, ho⟩
+  | more b s o1 o2 pl1 pl2 hfit hr hm ih =>
+    obtain ⟨ih1, ih2⟩ := ih
+    rw [ih1] at hm
+    have hok : flOK {} := by unfold flOK; decide
+    refine ⟨(parseFLine_resume b s o {} ih2 hok hfit hm).1, ?_⟩
+    have : (b ++ s).size = b.size + s.size := by simp
+    omega
+
+/-- **soundness for resumed objects**: an OK verdict — also when it comes after any number of MoreBytes rounds — means
+    that the text at the original offset `o` of the final buffer is a line of one of the two grammars, and the
+    object holds exactly its components -/
+theorem parseFLine_sound_resumed (b : Buf) (o o1 e : Nat) (pl1 st : PFLine) (hfit : b.size ≤ 65535)
+    (hr : FsResumed o b o1 pl1) (h : parseFLine b o1 pl1 = (e, Err.ok, st)) :
+    (∃ m u v, FsReqLine b o m u v e ∧ st = fsReqObj b o m u v) ∨
+      (∃ v d0 d1 d2, FsStatusLine b o v e d0 d1 d2 ∧ st = fsRplObj o v d0 d1 d2) := by
+  rw [(fs_resumed_eq hr).1] at h
+  exact parseFLine_sound b o e st hfit h
+
+/-- … so every one-shot theorem (`fline_never_missplit`, `fline_request_iff`, …) applies to the resumed call -/
+theorem fs_resumed_oneshot (b : Buf) (o o1 e : Nat) (pl1 st : PFLine)
+    (hr : FsResumed o b o1 pl1) (h : parseFLine b o1 pl1 = (e, Err.ok, st)) :
+    parseFLine b o {} = (e, Err.ok, st) := by
+  rw [(fs_resumed_eq hr).1] at h
+  exact h
+
+/-! ### one more rejection shape, with its verdict: a fourth token / trailing blank after the version -/
+
+/-- `method SP uri SP version` followed by SP or HT instead of the line end (e.g. a fourth space-separated token):
+    BadChar at that byte -/
+theorem fs_reject_after_version (b : Buf) (o m u v : Nat) (hfit : b.size ≤ 65535) (hlen : ¬ b.size - o < 14)
+    (hnr : (bcPrefix sipVerSP (b.extract o (o + 8)).toList).2 = false)
+    (hm : TokenRun b o m) (hm0 : o < m) (hsp1 : b[m]? = some 32)
+    (hu : TokenRun b (m + 1) u) (hu0 : m + 1 < u) (hsp2 : b[u]? = some 32)
+    (hv : TokenRun b (u + 1) v) (hv0 : u + 1 ≤ v) {c : UInt8} (hend : b[v]? = some c) (hc : c = 32 ∨ c = 9) :
+    (parseFLine b o {}).2.1 = Err.badChar ∧ (parseFLine b o {}).1 = v := by
+  have hvlt := get?_lt hend
+  have hcl : isLWSch c = true := by rcases hc with rfl | rfl <;> decide
+  have h32 : isLWSch (32 : UInt8) = true := by decide
+  unfold parseFLine
+  simp only
+  rw [if_neg hlen]
+  rcases hbp : bcPrefix sipVerSP (b.extract o (o + 8)).toList with ⟨l, ok⟩
+  rw [hbp] at hnr
+  simp only at hnr
+  subst hnr
+  simp only
+  unfold flReqMethod
+  simp only
+  rw [skipToken_run b o m (by omega) hm hsp1 h32, hsp1]
+  simp only [show ((32 : UInt8) != 32) = false from rfl, Bool.false_eq_true, ↓reduceIte]
+  rw [set_extend o m (by omega) (by omega), set_extendPanics o m (by omega) (by omega)]
+  have hne1 : (PField.isEmpty ⟨o, m - o⟩) = false := by unfold PField.isEmpty; simp; omega
+  simp only [hne1, Bool.false_eq_true, ↓reduceIte, Bool.or_false]
+  rw [field_get? b o (m - o) (by omega) hfit]
+  simp only
+  unfold flReqURI
+  simp only
+  rw [skipToken_run b (m + 1) u (by omega) hu hsp2 h32, hsp2]
+  simp only [show ((32 : UInt8) != 32) = false from rfl, Bool.false_eq_true, ↓reduceIte]
+  rw [set_extend (m + 1) u (by omega) (by omega), set_extendPanics (m + 1) u (by omega) (by omega)]
+  have hne2 : (PField.isEmpty ⟨m + 1, u - (m + 1)⟩) = false := by unfold PField.isEmpty; simp; omega
+  simp only [hne2, Bool.false_eq_true, ↓reduceIte, Bool.or_false]
+  unfold flReqVer
+  simp only
+  rw [skipToken_run b (u + 1) v hv0 hv hend hcl, hend]
+  have hcc : (c != 13 && c != 10) = true := by rcases hc with rfl | rfl <;> decide
+  simp only [hcc, ↓reduceIte, and_self]
+
+/-! ### the other verdicts: only OK / MoreBytes / BadChar; MoreBytes only at the end of the buffer -/
+
+/-- the verdicts ParseFLine can give on a new object -/
+def FsVerdict (e : Err) : Prop := e = Err.ok ∨ e = Err.moreBytes ∨ e = Err.badChar
+
+/-- at a CR / LF, or at the end of the buffer, `skipCRLF` never says NoCR -/
+theorem fs_skipCRLF_at_eol {b : Buf} {i n crl : Nat} {e : Err} (h : skipCRLF b i = (n, crl, e))
+    (hc : ∀ c, b[i]? = some c → isCRLFch c = true) : e = Err.ok ∨ e = Err.moreBytes := by
+  unfold skipCRLF at h
+  split at h
+  · split at h
+    · rename_i c h0
+      have := hc c h0
+      split at h
+      · rename_i hne
+        exfalso
+        simp only [isCRLFch, Bool.or_eq_true, beq_iff_eq] at this
+        simp only [Bool.and_eq_true, bne_iff_ne, ne_eq] at hne
+        rcases this with h1 | h1
+        · exact hne.1 h1
+        · exact hne.2 h1
+      · cases h; exact Or.inr rfl
+    · cases h; exact Or.inr rfl
+  · split at h
+    · rename_i h1 h0
+      have := get?_lt ‹_›
+      have := get?_none_ge h0
+      omega
+    · rename_i c0 h0
+      have := hc c0 h0
+      split at h
+      · split at h <;> (cases h; exact Or.inl rfl)
+      · split at h
+        · cases h; exact Or.inl rfl
+        · rename_i h13 h10
+          exfalso
+          simp only [isCRLFch, Bool.or_eq_true] at this
+          rcases this with h1 | h1
+          · exact h13 h1
+          · exact h10 h1
+
+theorem fs_flCRLF_verdict (b : Buf) (i : Nat) (pl : PFLine) (hc : ∀ c, b[i]? = some c → isCRLFch c = true) :
+    FsVerdict (flCRLF b i pl).2.1 := by
+  unfold flCRLF
+  rcases hs : skipCRLF b i with ⟨n, crl, er⟩
+  rcases fs_skipCRLF_at_eol hs hc with rfl | rfl <;> simp [FsVerdict]
+
+theorem fs_flReqVer_verdict (b : Buf) (i : Nat) (pl : PFLine) : FsVerdict (flReqVer b i pl).2.1 := by
+  unfold flReqVer
+  simp only
+  cases hj : b[skipToken b i]? with
+  | none => simp [FsVerdict]
+  | some c =>
+    simp only
+    split
+    · simp [FsVerdict]
+    · rename_i hne
+      split
+      · simp [FsVerdict]
+      · apply fs_flCRLF_verdict
+        intro c' hc'
+        rw [hj] at hc'
+        cases hc'
+        simp only [Bool.and_eq_true, bne_iff_ne, ne_eq, not_and, Decidable.not_not] at hne
+        unfold isCRLFch
+        by_cases h13 : c = 13
+        · simp [h13]
+        · simp [hne h13]
+
+theorem fs_flReqURI_verdict (b : Buf) (i : Nat) (pl : PFLine) : FsVerdict (flReqURI b i pl).2.1 := by
+  unfold flReqURI
+  simp only
+  split
+  · simp [FsVerdict]
+  · split
+    · simp [FsVerdict]
+    · split
+      · simp [FsVerdict]
+      · exact fs_flReqVer_verdict b _ _
+
+theorem fs_flReqMethod_verdict (b : Buf) (i : Nat) (pl : PFLine) : FsVerdict (flReqMethod b i pl).2.1 := by
+  unfold flReqMethod
+  simp only
+  split
+  · simp [FsVerdict]
+  · split
+    · simp [FsVerdict]
+    · split
+      · simp [FsVerdict]
+      · split
+        · simp [FsVerdict]
+        · exact fs_flReqURI_verdict b _ _
+
+theorem fs_flRplReason_verdict (b : Buf) (i : Nat) (pl : PFLine) : FsVerdict (flRplReason b i pl).2.1 := by
+  unfold flRplReason skipLine
+  rcases hs : skipCRLF b (skipToEOL b i) with ⟨n, crl, er⟩
+  rcases fs_skipCRLF_at_eol hs (skipToEOL_stop b i) with rfl | rfl <;> simp [FsVerdict]
+
+theorem fs_flReply_verdict (b : Buf) (i l : Nat) (pl : PFLine) : FsVerdict (flReply b i l pl).2.1 := by
+  unfold flReply
+  simp only
+  split
+  · split
+    · simp [FsVerdict]
+    · exact fs_flRplReason_verdict b _ _
+  · simp [FsVerdict]
+
+/-- on a new object ParseFLine answers OK, MoreBytes or BadChar, nothing else (in particular never NoCR: the line
+    end is only looked for at a CR / LF or at the end of the buffer) -/
+theorem fs_verdicts (b : Buf) (o : Nat) : FsVerdict (parseFLine b o {}).2.1 := by
+  unfold parseFLine
+  simp only
+  split
+  · simp [FsVerdict]
+  · split
+    · exact fs_flReply_verdict b _ _ _
+    · exact fs_flReqMethod_verdict b _ _
+
+theorem fs_flCRLF_more (b : Buf) (i : Nat) (pl : PFLine) {n : Nat} {st : PFLine}
+    (h : flCRLF b i pl = (n, Err.moreBytes, st)) : b.size ≤ n + 1 := by
+  unfold flCRLF at h
+  rcases hs : skipCRLF b i with ⟨n', crl, er⟩
+  rw [hs] at h
+  cases er <;> simp only at h <;> cases h
+  have := skipCRLF_moreBytes_pos hs
+  omega
+
+theorem fs_flReqVer_more (b : Buf) (i : Nat) (pl : PFLine) {n : Nat} {st : PFLine}
+    (h : flReqVer b i pl = (n, Err.moreBytes, st)) : b.size ≤ n + 1 := by
+  unfold flReqVer at h
+  simp only at h
+  cases hj : b[skipToken b i]? with
+  | none =>
+    rw [hj] at h; simp only at h; cases h
+    have := get?_none_ge hj; omega
+  | some c =>
+    rw [hj] at h; simp only at h
+    split at h
+    · cases h
+    · split at h
+      · cases h
+      · exact fs_flCRLF_more b _ _ h
+
+theorem fs_flReqURI_more (b : Buf) (i : Nat) (pl : PFLine) {n : Nat} {st : PFLine}
+    (h : flReqURI b i pl = (n, Err.moreBytes, st)) : b.size ≤ n + 1 := by
+  unfold flReqURI at h
+  simp only at h
+  cases hj : b[skipToken b i]? with
+  | none =>
+    rw [hj] at h; simp only at h; cases h
+    have := get?_none_ge hj; omega
+  | some c =>
+    rw [hj] at h; simp only at h
+    split at h
+    · cases h
+    · split at h
+      · cases h
+      · exact fs_flReqVer_more b _ _ h
+
+theorem fs_flReqMethod_more (b : Buf) (i : Nat) (pl : PFLine) {n : Nat} {st : PFLine}
+    (h : flReqMethod b i pl = (n, Err.moreBytes, st)) : b.size ≤ n + 1 := by
+  unfold flReqMethod at h
+  simp only at h
+  cases hj : b[skipToken b i]? with
+  | none =>
+    rw [hj] at h; simp only at h; cases h
+    have := get?_none_ge hj; omega
+  | some c =>
+    rw [hj] at h; simp only at h
+    split at h
+    · cases h
+    · split at h
+      · cases h
+      · split at h
+        · cases h
+        · exact fs_flReqURI_more b _ _ h
+
+theorem fs_flRplReason_more (b : Buf) (i : Nat) (pl : PFLine) {n : Nat} {st : PFLine}
+    (h : flRplReason b i pl = (n, Err.moreBytes, st)) : b.size ≤ n + 1 := by
+  unfold flRplReason skipLine at h
+  rcases hs : skipCRLF b (skipToEOL b i) with ⟨n', crl, er⟩
+  rw [hs] at h
+  cases er <;> simp only at h <;> cases h
+  have := skipCRLF_moreBytes_pos hs
+  omega
+
+theorem fs_flReply_more (b : Buf) (i l : Nat) (pl : PFLine) {n : Nat} {st : PFLine}
+    (h : flReply b i l pl = (n, Err.moreBytes, st)) : b.size ≤ n + 1 := by
+  unfold flReply at h
+  simp only at h
+  split at h
+  · split at h
+    · cases h
+    · exact fs_flRplReason_more b _ _ h
+  · cases h
+
+/-- MoreBytes is only answered when fewer than 14 bytes are available or the scan ran into the end of the buffer
+    (the returned continue point is the last byte or the end): a complete wrong line is not kept waiting -/
+theorem fs_more_at_end (b : Buf) (o n : Nat) (st : PFLine) (h : parseFLine b o {} = (n, Err.moreBytes, st)) :
+    b.size - o < 14 ∨ b.size ≤ n + 1 := by
+  unfold parseFLine at h
+  simp only at h
+  split at h
+  · rename_i hl; exact Or.inl hl
+  · right
+    split at h
+    · exact fs_flReply_more b _ _ _ h
+    · exact fs_flReqMethod_more b _ _ h
+
+/-- **classification**: on a new object, for every buffer and offset, exactly these three things can happen —
+    OK and the text at `o` is a line of the grammar; MoreBytes and the buffer was exhausted (or is shorter than the
+    14-byte look-ahead); BadChar and the text at `o` is not a line of the grammar -/
+theorem fline_classify (b : Buf) (o : Nat) (hfit : b.size ≤ 65535) :
+    ((parseFLine b o {}).2.1 = Err.ok ∧
+        ((∃ m u v e, FsReqLine b o m u v e) ∨ (∃ v e d0 d1 d2, FsStatusLine b o v e d0 d1 d2))) ∨
+      ((parseFLine b o {}).2.1 = Err.moreBytes ∧ (b.size - o < 14 ∨ b.size ≤ (parseFLine b o {}).1 + 1)) ∨
+      ((parseFLine b o {}).2.1 = Err.badChar ∧
+        ¬ ((∃ m u v e, FsReqLine b o m u v e) ∨ (∃ v e d0 d1 d2, FsStatusLine b o v e d0 d1 d2))) := by
+  rcases fs_verdicts b o with h | h | h
+  · exact Or.inl ⟨h, (fline_ok_iff b o hfit).1 h⟩
+  · refine Or.inr (Or.inl ⟨h, ?_⟩)
+    rcases hp : parseFLine b o {} with ⟨n, er, st⟩
+    rw [hp] at h
+    simp only at h
+    subst h
+    exact fs_more_at_end b o n st hp
+  · refine Or.inr (Or.inr ⟨h, ?_⟩)
+    intro hg
+    have := (fline_ok_iff b o hfit).2 hg
+    rw [h] at this
+    cases this
+
+/-! ### tests / non-vacuity (closed computations by `decide +kernel`; not part of the general claims) -/
+
+/-- test: the hypothesis of `parseFLine_sound` is met by a request line at a non-zero offset, with the object the
+    theorem predicts -/
+example : parseFLine "xxINVITE sip:a@b SIP/2.0\r\nX".toUTF8.data 2 {} =
+    (26, Err.ok, fsReqObj "xxINVITE sip:a@b SIP/2.0\r\nX".toUTF8.data 2 8 16 24) := by decide +kernel
+
+/-- test: … and by a status line (lower-case version, lone LF as line end) -/
+example : parseFLine "sIp/2.0 486 Busy Here\nX".toUTF8.data 0 {} = (22, Err.ok, fsRplObj 0 21 52 56 54) := by
+  decide +kernel
+
+/-- non-vacuity: `FsReqLine` is satisfiable -/
+example : ∃ m u v, FsReqLine "INVITE sip:a@b SIP/2.0\r\nX".toUTF8.data 0 m u v 24 := by
+  have h : parseFLine "INVITE sip:a@b SIP/2.0\r\nX".toUTF8.data 0 {} =
+      (24, Err.ok, fsReqObj "INVITE sip:a@b SIP/2.0\r\nX".toUTF8.data 0 6 14 22) := by decide +kernel
+  rcases fs_sound_grammar _ 0 24 _ (by decide +kernel) h with hr | ⟨v, d0, d1, d2, hs⟩
+  · exact hr
+  · exact absurd hs.ver (by decide +kernel)
+
+/-- non-vacuity: `FsStatusLine` is satisfiable, with an empty reason -/
+example : ∃ v d0 d1 d2, FsStatusLine "SIP/2.0 200 \nXX".toUTF8.data 0 v 13 d0 d1 d2 := by
+  have h : parseFLine "SIP/2.0 200 \nXX".toUTF8.data 0 {} = (13, Err.ok, fsRplObj 0 12 50 48 48) := by
+    decide +kernel
+  rcases fs_sound_grammar _ 0 13 _ (by decide +kernel) h with ⟨m, u, v, hr⟩ | hs
+  · exact absurd hr.notVer (by decide +kernel)
+  · exact hs
+
+/-- test (model behaviour worth knowing): the status line with code `000` is accepted and, the status being 0,
+    `Request()` answers true for it -/
+example : (parseFLine "SIP/2.0 000 x\r\nX".toUTF8.data 0 {}).2.1 = Err.ok ∧
+    (parseFLine "SIP/2.0 000 x\r\nX".toUTF8.data 0 {}).2.2.request = true := by decide +kernel
+
+/-- test (model behaviour worth knowing): "tokens" are runs of ANY bytes other than SP / HT / CR / LF — here NUL,
+    0x01, 0x02 — the version is not compared with `SIP/2.0`, and a lone CR followed by any byte ends the line -/
+example : (parseFLine "\x00 \x01 \x02\rXXXXXXXXXXXXXXX".toUTF8.data 0 {}).2.1 = Err.ok ∧
+    (parseFLine "\x00 \x01 \x02\rXXXXXXXXXXXXXXX".toUTF8.data 0 {}).1 = 6 := by decide +kernel
+
+/-- test: a fourth token after the version is rejected (`fs_reject_after_version`) -/
+example : (parseFLine "INVITE sip:a@b SIP/2.0 x\r\nX".toUTF8.data 0 {}).2.1 = Err.badChar ∧
+    (parseFLine "INVITE sip:a@b SIP/2.0 x\r\nX".toUTF8.data 0 {}).1 = 22 := by decide +kernel
+
+/-- test: a complete short line with fewer than 14 bytes available gets MoreBytes (`fs_short`) -/
+example : (parseFLine "A b c\r\nXXXXXX".toUTF8.data 0 {}).2.1 = Err.moreBytes := by decide +kernel
+
+/-- non-vacuity: `FsResumed` with one MoreBytes round in the middle of the version token, then OK -/
+example : ∃ pl, FsResumed 0 ("INVITE sip:a@b SI".toUTF8.data ++ "P/2.0\r\nX".toUTF8.data) 17 pl ∧
+    (parseFLine ("INVITE sip:a@b SI".toUTF8.data ++ "P/2.0\r\nX".toUTF8.data) 17 pl).2.1 = Err.ok := by
+  refine ⟨{ methodNo := 2, method := ⟨0, 6⟩, uri := ⟨7, 7⟩, version := ⟨15, 0⟩, state := .reqVer }, ?_, ?_⟩
+  · exact FsResumed.more _ _ 0 17 {} _ (by decide +kernel) (FsResumed.new _ (by decide +kernel)) (by decide +kernel)
+  · decide +kernel
 
 end Sipsp
